@@ -33,12 +33,14 @@ type Target struct {
 	Timeout     string            `json:"timeout,omitempty"`
 	Checks      []Check           `json:"output_checks,omitempty"`
 	Env         map[string]string `json:"environment_variables,omitempty"`
+	File        string            `json:"file,omitempty"` // BUILD file flavour that declares it: "" = BUILD.json, "yaml" = BUILD.yaml
 }
 
 type Alias struct {
 	Pkg    string `json:"pkg"`
 	Name   string `json:"name"`
 	Actual string `json:"actual"`
+	File   string `json:"file,omitempty"`
 }
 
 type Graph struct {
